@@ -144,11 +144,15 @@ func TestBatch(t *testing.T) {
 		b := batch{ID: 7, EP: parts[0], Op: s.op, Seed: s.name, Base: s.in, Mut: parts[2], Lo: lo, Hi: hi, Step: step}
 		t0 := time.Now()
 		r := &runner{
-			onRes:   func(_ batch, res *batchRes) { fmt.Printf("%v res from=%d n=%d fails=%d\n", time.Since(t0), res.From, len(res.Codes), len(res.Fails)) },
-			onFatal: func(_ batch, c Case, v evid.Verdict) { fmt.Printf("%v fatal %s ok=%v sig=%s\n", time.Since(t0), c.Src, v.OK, v.Sig) },
-			onNote:  func(l string) { fmt.Printf("%v note %s\n", time.Since(t0), l) },
-			onInc:   func(f string, a ...any) { fmt.Printf("%v INC "+f+"\n", append([]any{time.Since(t0)}, a...)...) },
-			hang:    &hangBook{},
+			onRes: func(_ batch, res *batchRes) {
+				fmt.Printf("%v res from=%d n=%d fails=%d\n", time.Since(t0), res.From, len(res.Codes), len(res.Fails))
+			},
+			onFatal: func(_ batch, c Case, v evid.Verdict) {
+				fmt.Printf("%v fatal %s ok=%v sig=%s\n", time.Since(t0), c.Src, v.OK, v.Sig)
+			},
+			onNote: func(l string) { fmt.Printf("%v note %s\n", time.Since(t0), l) },
+			onInc:  func(f string, a ...any) { fmt.Printf("%v INC "+f+"\n", append([]any{time.Since(t0)}, a...)...) },
+			hang:   &hangBook{},
 		}
 		r.run(b)
 		r.close()
